@@ -666,6 +666,7 @@ package zerolog
 //@   arith int
 //@   flag noovf
 //@   flag guarded mu buf triggered
+//@   flag heldcalls Writer
 //@   requires w != nil && held(w.mu) && w.Writer != nil
 //@   requires w.buf != nil ==> framed(content(w.buf))
 //@   ensures w.triggered
@@ -702,6 +703,7 @@ package zerolog
 //@   arith int
 //@   flag noovf
 //@   flag guarded mu buf triggered
+//@   flag heldcalls Writer
 //@   flag replay trigger_writer
 //@   requires w != nil && !held(w.mu) && w.Writer != nil && len(p) > 0 && p[len(p)-1] == 10 && l != 10
 //@   requires w.buf != nil ==> framed(content(w.buf))
@@ -723,6 +725,7 @@ package zerolog
 //@   flag replay trigger_writer
 //@   arith int
 //@   flag guarded mu buf triggered
+//@   flag heldcalls Writer
 //@   requires w != nil && !held(w.mu) && w.Writer != nil
 //@   requires w.buf != nil ==> framed(content(w.buf))
 //@   ensures !held(w.mu) && w.triggered && ncalls(TriggerLevelWriter.trigger) == old(ncalls(TriggerLevelWriter.trigger)) + 1 && err == callres(TriggerLevelWriter.trigger, old(ncalls(TriggerLevelWriter.trigger)), 0)
@@ -732,6 +735,7 @@ package zerolog
 //@   flag replay trigger_writer
 //@   arith int
 //@   flag guarded mu buf triggered
+//@   flag heldcalls Writer
 //@   requires w != nil && !held(w.mu)
 //@   ensures !held(w.mu) && w.buf == nil && err == nil && ncalls(LevelWriter.WriteLevel) == old(ncalls(LevelWriter.WriteLevel)) && ncalls(io.Writer.Write) == old(ncalls(io.Writer.Write))
 //@   ensures w.triggered == old(w.triggered) && w.Writer == old(w.Writer) && w.TriggerLevel == old(w.TriggerLevel) && w.ConditionalLevel == old(w.ConditionalLevel)
